@@ -23,8 +23,8 @@ type c15 struct{ base }
 
 func init() {
 	core.Register(c15{base{id: "C15", race: true, level: "exploration", quickB: 16, thoroughB: 32,
-		rule: "groups of 2-24 client sessions (different users; typed result tables in text and binary via simple and extended protocol; extended histories over the same statement/portal names; binary COPY-in; failing queries; oversized messages; on half of the groups a server-registered custom type; short-lived CancelRequest / SSLRequest / truncated-startup / empty connections before and during the sessions) are first served one at a time on a fresh server (solo reference) and then all at once on another fresh server, 3 (quick) / 5 (thorough) times with different yield-injection seeds at every transport Read/Write; every connection's per-step reply bytes and callback trace must equal its solo run (ParameterStatus compared as a multiset); the binary runs under the Go race detector and any report with a library frame is a violation. Non-trivial = group whose global event order interleaves at least two connections; distinct = hash of the global (connection, event-kind) order observed.",
-		need:        []string{"groups", "concurrent_sessions", "steps_compared", "distinct_interleavings", "race_detector_active_batches", "custom_type_rows", "copy_sessions"},
+		rule: "groups of 2-24 client sessions (different users; typed result tables in text and binary via simple and extended protocol; extended histories over the same statement/portal names; binary COPY-in; failing queries; oversized messages; on half of the groups a server-registered custom type; short-lived CancelRequest / SSLRequest / truncated-startup / empty connections before and during the sessions) (some steps prepare statements over a query text shared by all connections of the group, declared through wire.ParseParameters, with per-connection prespecified parameter types) are first served one at a time on a fresh server (solo reference; repeated in reverse order on another fresh server - the two solo runs must agree) and then all at once on another fresh server, 3 (quick) / 5 (thorough) times with different yield-injection seeds at every transport Read/Write; every connection's per-step reply bytes and callback trace must equal its solo run (ParameterStatus compared as a multiset); the binary runs under the Go race detector and any report with a library frame is a violation. Non-trivial = group whose global event order interleaves at least two connections; distinct = hash of the global (connection, event-kind) order observed.",
+		need:        []string{"groups", "concurrent_sessions", "steps_compared", "distinct_interleavings", "race_detector_active_batches", "custom_type_rows", "copy_sessions", "solo_order_comparisons"},
 		assumptions: append([]string{"handler programs are deterministic functions of the query text, so a connection's solo transcript is the reference for its concurrent transcript"}, commonAssumptions...)}})
 }
 
@@ -38,10 +38,33 @@ type c15session struct {
 }
 
 func c15gen(rng *core.Rng, tag string, custom bool) c15session {
+	return c15genShared(rng, tag, custom, "")
+}
+
+// c15genShared: with a non-empty group tag some steps prepare statements whose query text is
+// shared by every connection of the group.
+func c15genShared(rng *core.Rng, tag string, custom bool, group string) c15session {
 	s := c15session{User: "user_" + tag, Progs: map[string]*hs.Prog{}}
 	nsteps := 2 + rng.Intn(7)
 	for i := 0; i < nsteps; i++ {
 		id := fmt.Sprintf("%s.%d", tag, i)
+		if group != "" && rng.Intn(5) == 0 {
+			// same text on all connections; declared parameters come from wire.ParseParameters;
+			// each connection prespecifies its own parameter types in Parse
+			q := fmt.Sprintf("shared %s select $1, $2, $%d", group, 3+rng.Intn(2))
+			s.Progs[q] = &hs.Prog{Stmts: []*hs.Stmt{{ID: "shared", ParseParams: true, Cols: textCols(1), Ops: []hs.Op{{K: "row", Vals: []any{"shared"}}, {K: "complete", Tag: "SELECT 1"}}}}}
+			var oids []uint32
+			for j := rng.Intn(4); j > 0; j-- {
+				oids = append(oids, core.Pick(rng, []uint32{23, 25, 20, 1043, 16}))
+			}
+			var in []byte
+			in = append(in, pg.Parse("sh", q, oids)...)
+			in = append(in, pg.Describe('S', "sh")...)
+			in = append(in, pg.Sync()...)
+			s.Steps = append(s.Steps, in)
+			s.Kinds = append(s.Kinds, "shared-text")
+			continue
+		}
 		switch k := rng.Intn(100); {
 		case k < 60: // typed table
 			t := c09gen(rng, false)
@@ -216,7 +239,7 @@ func (ch c15) Run(c *core.Ctx) {
 		custom := g%2 == 0
 		sessions := make([]c15session, n)
 		for i := range sessions {
-			sessions[i] = c15gen(rng, fmt.Sprintf("g%dc%d", g, i), custom)
+			sessions[i] = c15genShared(rng, fmt.Sprintf("g%dc%d", g, i), custom, fmt.Sprintf("s%dg%d", c.Seed, g))
 		}
 		cs := map[string]any{"group": g, "sessions": n, "custom_type": custom}
 		// solo references: one fresh server, sessions one after another
@@ -240,6 +263,29 @@ func (ch c15) Run(c *core.Ctx) {
 				case "copy":
 					c.Count("copy_sessions", 1)
 				}
+			}
+		}
+		env.Stop()
+		if bad {
+			continue
+		}
+		// second solo pass in reverse order on another fresh server: what a connection is told
+		// must not depend on which connections were served before it
+		env = hs.Start(hs.Parse, c15opts(custom)...)
+		for i := n - 1; i >= 0; i-- {
+			again, _ := c15run(env, sessions[i], nil)
+			c.Count("solo_order_comparisons", 1)
+			same := again.Err == solo[i].Err && again.Startup == solo[i].Startup && len(again.Outs) == len(solo[i].Outs) && strings.Join(again.Trace, "|") == strings.Join(solo[i].Trace, "|")
+			for st := 0; same && st < len(again.Outs); st++ {
+				if !bytes.Equal(again.Outs[st], solo[i].Outs[st]) {
+					same = false
+					c.Violate("history-dependent", "a connection served alone answers differently depending on which connections were served before it ("+sessions[i].Kinds[min(st, len(sessions[i].Kinds)-1)]+" step)", fmt.Sprintf("group %d session %d step %d: served %d-th: %s | served %d-th: %s", g, i, st, i+1, trim(replyKinds(solo[i].Outs[st]), 300), n-i, trim(replyKinds(again.Outs[st]), 300)), cs)
+					bad = true
+				}
+			}
+			if !same && !bad {
+				c.Violate("history-dependent", "a connection served alone behaves differently depending on which connections were served before it", fmt.Sprintf("group %d session %d", g, i), cs)
+				bad = true
 			}
 		}
 		env.Stop()
